@@ -473,6 +473,28 @@ UNITS_SEXP = "(%s)" % hx("None")
 def set_stress_case(rng):
     """a set pattern whose elements are written independently of the collection, so that the match
     matrix is arbitrary (several patterns competing for the same elements, wildcards, no match)"""
+    if rng.random() < 0.12:
+        # a set of sets: every probe of the outer search runs an inner search (searches nest); the inner sets are written
+        # for the outer elements in another order than the elements come, with their own elements shuffled; half of the
+        # cases have one inner set that matches no element
+        no = rng.randint(2, 3)
+        outer = [rng.sample(range(0, 9), rng.randint(1, 3)) for _ in range(no)]
+        order = list(range(no))
+        rng.shuffle(order)
+        rest = rng.random() < 0.4
+        chosen = order if not rest else order[:rng.randint(1, no)]
+        inner_pats = []
+        for i in chosen:
+            el = outer[i][:]
+            rng.shuffle(el)
+            inner_pats.append([str(x) if rng.random() < 0.6 else "== %d" % x for x in el])
+        if rng.random() < 0.5:
+            j = rng.randrange(len(inner_pats))
+            inner_pats[j][rng.randrange(len(inner_pats[j]))] = "99"
+        pat = "#(%s)" % ", ".join(["#(%s)" % ", ".join(ip) for ip in inner_pats] + ([".."] if rest else []))
+        vr = "vec![%s]" % ", ".join("vec![%s]" % ", ".join(str(x) for x in el) for el in outer)
+        vm = "(vec %s)" % " ".join("(vec %s)" % " ".join("(int %d)" % x for x in el) for el in outer)
+        return {"type": "Vec<Vec<i32>>", "value_rust": vr, "value_model": vm, "pattern": pat, "kinds": {"set-of-sets": 1}}
     n = rng.randint(1, 5)
     vals = [rng.randint(0, 5) for _ in range(n)]
     k = rng.randint(1, min(n + 1, 4))
